@@ -327,6 +327,42 @@ func ResolveAnchors(p *an.Prog) {
 		}
 	}
 
+	// the agent's started flag may be a bool or a small two-state named type: when no field carries the name, it is the
+	// one unexported field of basic underlying type that Start's region writes
+	if ag := p.Named("agent", "Agent"); ag != nil {
+		if st, ok := ag.Underlying().(*types.Struct); ok {
+			has := false
+			for i := 0; i < st.NumFields(); i++ {
+				if an.Ident(st.Field(i).Name()) == "started" {
+					has = true
+				}
+			}
+			if startFn := p.MethodOf(ag, "Start"); !has && startFn != nil {
+				cands := map[string]bool{}
+				for _, fn := range regionFuncs(p, startFn) {
+					an.AllInstrs(fn, func(in ssa.Instruction) {
+						stI, ok := in.(*ssa.Store)
+						if !ok {
+							return
+						}
+						fv := an.FieldOf(stI.Addr)
+						if fv == nil || fv.Exported() || namedOf(structOfFieldAccessType(stI.Addr)) != ag {
+							return
+						}
+						if b, ok := fv.Type().Underlying().(*types.Basic); ok && (b.Info()&types.IsBoolean != 0 || b.Info()&types.IsInteger != 0) {
+							cands[fv.Name()] = true
+						}
+					})
+				}
+				if len(cands) == 1 {
+					for name := range cands {
+						an.AliasIdent(name, "started")
+					}
+				}
+			}
+		}
+	}
+
 	// ---- functions and methods
 	vp := p.Named("pool", "VipnodePool")
 	aliasF("pool", "VipnodePool", "connect", func() *ssa.Function {
@@ -547,4 +583,12 @@ func sigStrHasResult(fn *ssa.Function, t string) bool {
 		}
 	}
 	return false
+}
+
+// structOfFieldAccessType: the struct type whose field the address v selects (nil when v is not a field access).
+func structOfFieldAccessType(v ssa.Value) types.Type {
+	if n := structOfFieldAccess(v); n != nil {
+		return n
+	}
+	return nil
 }
